@@ -211,10 +211,18 @@ structure AddArgs where
   reject : Bool := false       -- a verifier rejects (read phase)
   mismatch : Bool := false     -- payload does not hash to the transaction's payload hash
   commitFail : Bool := false   -- the commit fails / the node stops before commit
+  failShelf : Option Nat := none  -- storage fault while writing THIS subscriber's job shelf inside the write transaction
   deriving DecidableEq, Repr, Inhabited
 
+/-- does the storage fault on subscriber `failShelf`'s shelf hit the Save of event (ref, ty)?  (Save touches the shelf
+    only after the filters accepted the event) -/
+def shelfFaultHits (c : Cfg) (failShelf : Option Nat) (ref : Nat) (ty : EvType) : Bool :=
+  match failShelf with
+  | some f => decide (f < c.nSubs) && c.sel f ref ty
+  | none => false
+
 inductive Status where
-  | ok | present | invalid | errVerify | errPayloadHash | errRoot | errCommit | errNotFound | skipped
+  | ok | present | invalid | errVerify | errPayloadHash | errRoot | errCommit | errNotFound | skipped | errShelf
   deriving DecidableEq, Repr
 
 /-- state.Add up to and including the commit; AfterCommit notifications are queued in `pending`.
@@ -227,7 +235,10 @@ def addTx (c : Cfg) (σ : St) (a : AddArgs) : St × Status :=
   else if a.ref ∈ σ.dag then (σ, .present)
   else if a.reject then (σ, .errVerify)
   else if a.withPayload && a.mismatch then (σ, .errPayloadHash)
+  -- state.saveEvent stops at the first Save error and returns it: the whole write transaction is rolled back
+  else if a.withPayload && shelfFaultHits c a.failShelf a.ref .payload then (σ, .errShelf)
   else if c.root a.ref && σ.dag.any c.root then (σ, .errRoot)
+  else if shelfFaultHits c a.failShelf a.ref .tx then (σ, .errShelf)
   else if a.commitFail then (σ, .errCommit)
   else
     let σ1 := if a.withPayload then
@@ -243,7 +254,7 @@ def addTx (c : Cfg) (σ : St) (a : AddArgs) : St × Status :=
     (one atomic write transaction) -/
 def writePayload (c : Cfg) (σ : St) (ref : Nat) (commitFail : Bool) : St × Status :=
   if ref ∉ σ.dag then (σ, .errNotFound)
-  else if commitFail then (σ, .errCommit)
+  else if commitFail then (σ, .errCommit)   -- also: a storage fault on one subscriber's shelf (saveEvent returns the error)
   else if c.skipPresent = true ∧ ref ∈ σ.evented then (σ, .skipped)
   else
     let σ1 := saveEvent c { σ with payloads := c.phash ref :: σ.payloads, evented := ref :: σ.evented,
